@@ -79,8 +79,8 @@ Proof.
       * apply on_comp_before.
       * cbn [length] in Hf. lia.
     + destruct (is_nil todo); cbn; discriminate.
-    + destruct (Nat.ltb slCountMax (S slcount)) eqn:Hb64; [cbn; discriminate|].
-      destruct (is_nil todo && slmode_eqb slm SlLstat); [cbn; discriminate|].
+    + destruct (is_nil todo && slmode_eqb slm SlLstat); [cbn; discriminate|].
+      destruct (Nat.ltb slCountMax (S slcount)) eqn:Hb64; [cbn; discriminate|].
       apply Nat.ltb_ge in Hb64.
       destruct (pi_replace_part_spec done todo c t Hok) as (Hg' & reset & pi2 & Hrp2 & Hcase). cbv zeta in Hrp2, Hcase.
       rewrite Hrp2.
@@ -180,7 +180,7 @@ Theorem sym_bridge_lookup_sized (s : fsys) (sv : sview) (slm : slmode) (cs : lis
   length cs + 1 + MAXSYMLINKS * T <= WALK_FUEL ->
   let K := klookup s sv false (follow_of slm) (abs_path cs) in
   let r := search_node s v (abs_path cs) slm in
-  walk_rel h (v_user v) (v_root v) (precise_of slm) r K \/ lstat_corner h slm r K.
+  walk_rel h (v_user v) (v_root v) (precise_of slm) r K.
 Proof.
   intros v h Hos Hwf Hlc Hpv Htb Hrd Hg Hf1 Hf2 K r. subst K r.
   assert (Hok : Forall comp_ok cs) by (apply Forall_comp_ok_of; exact Hg).
